@@ -197,4 +197,28 @@ theorem tryEntry_refetch {K : Type} (validNs : Int) (derive : Int → K) (s : St
     · simp [he]
     · simp [he]
 
+theorem conc_ok {K : Type} (validNs : Int) (derive : Int → K) (pool : List (Entry K)) (used : List (Instant × Entry K))
+    (h : ConcRun validNs derive pool used) :
+    (∀ e ∈ pool, EntryOk derive e) ∧
+    ∀ p ∈ used, p.2.epoch = epoch p.1.wall ∧ p.2.keys = derive (epoch p.1.wall) := by
+  induction h with
+  | nil => exact ⟨by simp, by simp⟩
+  | op pool used c hd hc hh o prev ih =>
+    obtain ⟨ihp, ihu⟩ := ih
+    have hs : StateOk derive (⟨c, fun _ => hd⟩ : State K) :=
+      ⟨fun e he => ihp e (hc e he), fun _ e he => ihp e (hh e he)⟩
+    obtain ⟨h1, h2, _⟩ := step_ok validNs derive _ hs o
+    refine ⟨?_, ?_⟩
+    · intro e he
+      simp only [List.mem_cons] at he
+      rcases he with rfl | he
+      · show (step validNs derive _ o).1.keys = derive (step validNs derive _ o).1.epoch
+        rw [h2, h1]
+      · exact ihp e he
+    · intro p hp
+      simp only [List.mem_cons] at hp
+      rcases hp with rfl | hp
+      · exact ⟨h1, h2⟩
+      · exact ihu p hp
+
 end Mieru.Proofs.C08
